@@ -257,11 +257,11 @@ func (k *checker) followUp(cfg config, w *world, x *cx, v *probe, m wmode, sq st
 	}
 	if rsp.Status != p.status || !bytes.Equal(rsp.Body, p.body) {
 		extra := ""
-		if i := bytes.Index(rsp.Body, p.body); i > 0 {
-			lead := rsp.Body[:i]
+		if len(rsp.Body) > len(p.body) && bytes.HasSuffix(rsp.Body, p.body) {
+			lead := rsp.Body[:len(rsp.Body)-len(p.body)]
 			extra = fmt.Sprintf("; the fault-free body is preceded by %d foreign bytes", len(lead))
-			if bytes.HasSuffix(v.body, bytes.TrimRight(lead, "\n")) || bytes.HasSuffix(bytes.TrimRight(v.body, "\n"), bytes.TrimRight(lead, "\n")) {
-				extra += ", the unwritten tail of the failed response"
+			if bytes.HasSuffix(v.body, lead) {
+				extra += ", which are the unwritten tail of the failed response"
 			}
 		}
 		k.viol("answer to "+p.kind+" following a failed "+strings.SplitN(v.kind, " (", 2)[0]+" write differs from the fault-free answer",
